@@ -36,6 +36,9 @@ fn injected<T: serde::Serialize + serde::de::DeserializeOwned>(name: &str, bytes
         let mut dup = m.clone();
         dup.push(m[i].clone());
         if ciborium::de::from_reader::<T, _>(&enc(&dup)[..]).is_ok() { return Some(format!("{name}: member {} given twice is accepted", i128::from(*ki))); }
+        let mut null_first = m.clone();
+        null_first.insert(0, (k.clone(), Value::Null));
+        if ciborium::de::from_reader::<T, _>(&enc(&null_first)[..]).is_ok() { return Some(format!("{name}: member {} given twice (first as null) is accepted", i128::from(*ki))); }
         if required.contains(&i128::from(*ki)) {
             let mut missing = m.clone();
             missing.remove(i);
@@ -61,6 +64,9 @@ pub fn run(arg: &str) -> (bool, String) {
             push(judge("getAssertion request, all members", &bf, &[1, 2, 3, 4, 5, 6, 7]));
             push(judge("getAssertion request, required members only", &bm, &[1, 2, 5]));
             push(injected::<get_assertion::Request>("getAssertion request", &bf, &[1, 2]));
+            // a member that is present but empty is present
+            let empty = get_assertion::Request { allow_list: Some(vec![]), extensions: None, pin_auth: None, pin_protocol: None, rp_id: "example.com".into(), client_data_hash: vec![7; 32].into(), options: get_assertion::Options { rk: false, up: true, uv: false } };
+            push(judge("getAssertion request, allowList present and empty", &ser(&empty), &[1, 2, 3, 5]));
             match ciborium::de::from_reader::<get_assertion::Request, _>(&bf[..]) {
                 Ok(r) => if r.rp_id != full.rp_id || r.client_data_hash != full.client_data_hash || r.allow_list.as_ref().map(|l| l.len()) != Some(1) || r.pin_protocol != Some(1) || r.pin_auth != full.pin_auth || !r.options.uv { push(Some("getAssertion request: deserialising its own bytes yields a different message".into())) },
                 Err(e) => push(Some(format!("getAssertion request: its own bytes are rejected: {e:?}"))),
@@ -93,6 +99,8 @@ pub fn run(arg: &str) -> (bool, String) {
             push(judge("makeCredential request, all members", &bf, &[1, 2, 3, 4, 5, 6, 7, 8, 9]));
             push(judge("makeCredential request, required members only", &bm, &[1, 2, 3, 4, 7]));
             push(injected::<make_credential::Request>("makeCredential request", &bf, &[1, 2, 3, 4]));
+            let empty = make_credential::Request { client_data_hash: vec![7; 32].into(), rp: rp(), user: user(), pub_key_cred_params: vec![], exclude_list: Some(vec![]), extensions: None, options: make_credential::Options { rk: false, up: true, uv: false }, pin_auth: None, pin_protocol: None };
+            push(judge("makeCredential request, excludeList present and empty", &ser(&empty), &[1, 2, 3, 4, 5, 7]));
             match ciborium::de::from_reader::<make_credential::Request, _>(&bf[..]) {
                 Ok(r) => if r.client_data_hash != full.client_data_hash || r.rp.id != "example.com" || r.pub_key_cred_params.len() != 1 || r.pin_protocol != Some(1) || !r.options.rk || r.exclude_list.as_ref().map(|l| l.len()) != Some(1) { push(Some("makeCredential request: deserialising its own bytes yields a different message".into())) },
                 Err(e) => push(Some(format!("makeCredential request: its own bytes are rejected: {e:?}"))),
@@ -119,6 +127,8 @@ pub fn run(arg: &str) -> (bool, String) {
             push(judge("getInfo response, all members", &bf, &[1, 2, 3, 4, 5, 6, 9]));
             push(judge("getInfo response, required members only", &bm, &[1, 3]));
             push(injected::<get_info::Response>("getInfo response", &bf, &[1, 3]));
+            let empty = get_info::Response { versions: vec![], extensions: Some(vec![]), aaguid: Aaguid::new_empty(), options: None, max_msg_size: None, pin_protocols: Some(vec![]), transports: Some(vec![]) };
+            push(judge("getInfo response, lists present and empty", &ser(&empty), &[1, 2, 3, 6, 9]));
             match ciborium::de::from_reader::<get_info::Response, _>(&bf[..]) { Ok(r) => if r != full { push(Some("getInfo response: deserialising its own bytes yields a different message".into())) }, Err(e) => push(Some(format!("getInfo response: its own bytes are rejected: {e:?}"))) }
             match ciborium::de::from_reader::<get_info::Response, _>(&bm[..]) { Ok(r) => if r != min { push(Some("getInfo response: deserialising its own bytes yields a different message".into())) }, Err(e) => push(Some(format!("getInfo response: its own bytes are rejected: {e:?}"))) }
         }
